@@ -61,6 +61,7 @@ def shards(tier: str) -> List[Any]:
     parts = max(1, len(patterns) // 24)
     for index in range(parts):
         result.append(("patterns", tier, index, parts))
+    result.append(("history", tier))
     return result
 
 
@@ -415,6 +416,26 @@ def work_mode(shard: Any, mode: str) -> Result:
                     result.timeouts += 1
                 finally:
                     shutil.rmtree(base, ignore_errors=True)
+        elif kind == "history":
+            # one process, the same patterns with other bounds one after the other: state
+            # which leaks from one generation into the next shows as a wrong bound
+            tier = shard[1]
+            wanted = ["two-patterns-max1", "two-patterns-max3", "two-patterns", "two-patterns-max1", "two-patterns", "two-patterns-max3"]
+            by_family = {
+                info["family"]: (info, spec)
+                for info, spec in schema_space.models(tier)
+                if info["annotation"] == "str" and info["placement"] == "own"
+            }
+            for family in wanted:
+                info, spec = by_family[family]
+                result.states += 1
+                try:
+                    with time_limit(900):
+                        explore_model(dict(info, history=wanted), spec, base, mode, result)
+                except CaseTimeout:
+                    result.timeouts += 1
+                finally:
+                    shutil.rmtree(base, ignore_errors=True)
         else:
             _, tier, index, parts = shard
             for number, pattern in enumerate(pattern_space(tier)):
@@ -439,6 +460,8 @@ def replay_common(case: Any, mode: str) -> List[Violation]:
     try:
         if "pattern" in info:
             explore_pattern(info["pattern"], base, result)
+        elif "history" in info:
+            result = work_mode(("history", "thorough"), mode)
         else:
             for other, spec in schema_space.models("thorough"):
                 if other == info:
